@@ -362,22 +362,32 @@ pub mod axioms {
 }
 broadcast use {sp::lemma_ext_den, group_hash_axioms, axioms::axiom_key_bddnode, axioms::axiom_key_ite, axioms::axiom_key_restrict, axioms::axiom_key_var, axioms::axiom_key_term, sp::lemma_ext_supp, sp::lemma_ext_paths, sp::lemma_ext_depth};
 
-pub open spec fn ite_entry_ok(nodes: Seq<BddNode>, k: (Term, Term, Term), v: Term) -> bool {
+// a memo entry has a *shape* part (C06: handles in range, ordering facts used for termination and for node's precondition)
+// and a *denotation* part (C07/C11: the cached answer is the right function)
+pub open spec fn ite_entry_shape(nodes: Seq<BddNode>, k: (Term, Term, Term), v: Term) -> bool {
     &&& k.0.0 < nodes.len() && k.1.0 < nodes.len() && k.2.0 < nodes.len() && v.0 < nodes.len()
     &&& topvar(nodes, v.0 as int) >= min3(topvar(nodes, k.0.0 as int), topvar(nodes, k.1.0 as int), topvar(nodes, k.2.0 as int))
-    &&& den(nodes, v.0 as int) == bf_ite(den(nodes, k.0.0 as int), den(nodes, k.1.0 as int), den(nodes, k.2.0 as int))
 }
-pub open spec fn restrict_entry_ok(nodes: Seq<BddNode>, k: (Term, Var, bool), v: Term) -> bool {
+pub open spec fn ite_entry_den(nodes: Seq<BddNode>, k: (Term, Term, Term), v: Term) -> bool {
+    den(nodes, v.0 as int) == bf_ite(den(nodes, k.0.0 as int), den(nodes, k.1.0 as int), den(nodes, k.2.0 as int))
+}
+pub open spec fn ite_entry_ok(nodes: Seq<BddNode>, k: (Term, Term, Term), v: Term) -> bool { ite_entry_shape(nodes, k, v) && ite_entry_den(nodes, k, v) }
+pub open spec fn restrict_entry_shape(nodes: Seq<BddNode>, k: (Term, Var, bool), v: Term) -> bool {
     &&& k.0.0 < nodes.len() && v.0 < nodes.len()
     &&& topvar(nodes, v.0 as int) >= topvar(nodes, k.0.0 as int)
     &&& topvar(nodes, v.0 as int) != k.1.0
-    &&& den(nodes, v.0 as int) == bf_restrict(den(nodes, k.0.0 as int), k.1.0, k.2)
 }
+pub open spec fn restrict_entry_den(nodes: Seq<BddNode>, k: (Term, Var, bool), v: Term) -> bool {
+    den(nodes, v.0 as int) == bf_restrict(den(nodes, k.0.0 as int), k.1.0, k.2)
+}
+pub open spec fn restrict_entry_ok(nodes: Seq<BddNode>, k: (Term, Var, bool), v: Term) -> bool { restrict_entry_shape(nodes, k, v) && restrict_entry_den(nodes, k, v) }
 pub proof fn lemma_ext_entries(o: Seq<BddNode>, n: Seq<BddNode>)
     requires ext(o, n),
     ensures
-        forall|k: (Term, Term, Term), v: Term| #[trigger] ite_entry_ok(o, k, v) ==> ite_entry_ok(n, k, v),
-        forall|k: (Term, Var, bool), v: Term| #[trigger] restrict_entry_ok(o, k, v) ==> restrict_entry_ok(n, k, v),
+        forall|k: (Term, Term, Term), v: Term| #[trigger] ite_entry_shape(o, k, v) ==> ite_entry_shape(n, k, v),
+        forall|k: (Term, Var, bool), v: Term| #[trigger] restrict_entry_shape(o, k, v) ==> restrict_entry_shape(n, k, v),
+        forall|k: (Term, Term, Term), v: Term| ite_entry_shape(o, k, v) && #[trigger] ite_entry_den(o, k, v) ==> ite_entry_den(n, k, v),
+        forall|k: (Term, Var, bool), v: Term| restrict_entry_shape(o, k, v) && #[trigger] restrict_entry_den(o, k, v) ==> restrict_entry_den(n, k, v),
 {
 }
 
@@ -398,8 +408,13 @@ pub open spec fn core_ok(nodes: Seq<BddNode>, cache: Map<BddNode, Term>, ite: Ma
     &&& nodes_wf(nodes)
     &&& forall|n: BddNode| #[trigger] cache.contains_key(n) ==> 2 <= cache[n].0 < nodes.len() && nodes[cache[n].0 as int] == n
     &&& forall|i: int| 2 <= i < nodes.len() ==> cache.contains_key(#[trigger] nodes[i]) && cache[nodes[i]].0 == i
-    &&& forall|k: (Term, Term, Term)| #[trigger] ite.contains_key(k) ==> ite_entry_ok(nodes, k, ite[k])
-    &&& forall|k: (Term, Var, bool)| #[trigger] rc.contains_key(k) ==> restrict_entry_ok(nodes, k, rc[k])
+    &&& forall|k: (Term, Term, Term)| #[trigger] ite.contains_key(k) ==> ite_entry_shape(nodes, k, ite[k])
+    &&& forall|k: (Term, Var, bool)| #[trigger] rc.contains_key(k) ==> restrict_entry_shape(nodes, k, rc[k])
+}
+// ---- C07 / C11: every memoised answer denotes the right function
+pub open spec fn memo_ok(nodes: Seq<BddNode>, ite: Map<(Term, Term, Term), Term>, rc: Map<(Term, Var, bool), Term>) -> bool {
+    &&& forall|k: (Term, Term, Term)| #[trigger] ite.contains_key(k) ==> ite_entry_den(nodes, k, ite[k])
+    &&& forall|k: (Term, Var, bool)| #[trigger] rc.contains_key(k) ==> restrict_entry_den(nodes, k, rc[k])
 }
 // ---- C13 (and C07 through the early exit of restrict): the stored dependency sets are the supports
 pub open spec fn deps_ok(nodes: Seq<BddNode>, vd: Seq<HashSet<Var>>) -> bool {
@@ -433,8 +448,16 @@ pub proof fn lemma_core_push(o: Seq<BddNode>, n: Seq<BddNode>, co: Map<BddNode, 
     assert forall|m: BddNode| #[trigger] cn.contains_key(m) implies 2 <= cn[m].0 < n.len() && n[cn[m].0 as int] == m by {
         if m != node { assert(co.contains_key(m)); }
     }
-    assert forall|k: (Term, Term, Term)| #[trigger] ite.contains_key(k) implies ite_entry_ok(n, k, ite[k]) by { assert(ite_entry_ok(o, k, ite[k])); }
-    assert forall|k: (Term, Var, bool)| #[trigger] rc.contains_key(k) implies restrict_entry_ok(n, k, rc[k]) by { assert(restrict_entry_ok(o, k, rc[k])); }
+    assert forall|k: (Term, Term, Term)| #[trigger] ite.contains_key(k) implies ite_entry_shape(n, k, ite[k]) by { assert(ite_entry_shape(o, k, ite[k])); }
+    assert forall|k: (Term, Var, bool)| #[trigger] rc.contains_key(k) implies restrict_entry_shape(n, k, rc[k]) by { assert(restrict_entry_shape(o, k, rc[k])); }
+}
+pub proof fn lemma_memo_ext(o: Seq<BddNode>, n: Seq<BddNode>, co: Map<BddNode, Term>, ite: Map<(Term, Term, Term), Term>, rc: Map<(Term, Var, bool), Term>)
+    requires core_ok(o, co, ite, rc), memo_ok(o, ite, rc), ext(o, n),
+    ensures memo_ok(n, ite, rc),
+{
+    lemma_ext_entries(o, n);
+    assert forall|k: (Term, Term, Term)| #[trigger] ite.contains_key(k) implies ite_entry_den(n, k, ite[k]) by { assert(ite_entry_shape(o, k, ite[k])); assert(ite_entry_den(o, k, ite[k])); }
+    assert forall|k: (Term, Var, bool)| #[trigger] rc.contains_key(k) implies restrict_entry_den(n, k, rc[k]) by { assert(restrict_entry_shape(o, k, rc[k])); assert(restrict_entry_den(o, k, rc[k])); }
 }
 pub proof fn lemma_deps_push(o: Seq<BddNode>, n: Seq<BddNode>, vo: Seq<HashSet<Var>>, vn: Seq<HashSet<Var>>, node: BddNode)
     requires
@@ -537,6 +560,7 @@ pub open spec fn is_models(nodes: Seq<BddNode>, t: int, c: ModelCounts) -> bool 
 pub open spec fn is_paths(nodes: Seq<BddNode>, t: int, c: ModelCounts) -> bool { c.cmodels == paths_spec(nodes, t).0 && c.models == paths_spec(nodes, t).1 }
 impl Bdd {
     pub open spec fn wf_core(&self) -> bool { core_ok(self.nodes@, self.cache@, self.ite_cache@, self.restrict_cache@) }
+    pub open spec fn wf_memo(&self) -> bool { memo_ok(self.nodes@, self.ite_cache@, self.restrict_cache@) }
     #[cfg(feature = "variablelist")]
     pub open spec fn wf_deps(&self) -> bool { deps_ok(self.nodes@, self.var_deps@) }
     #[cfg(not(feature = "variablelist"))]
@@ -548,7 +572,7 @@ impl Bdd {
     #[cfg(not(feature = "frontend"))]
     pub open spec fn wf_chan(&self) -> bool { true }
 
-    pub open spec fn wf(&self) -> bool { self.wf_core() && self.wf_deps() && self.wf_counts() && self.wf_chan() }
+    pub open spec fn wf(&self) -> bool { self.wf_core() && self.wf_memo() && self.wf_deps() && self.wf_counts() && self.wf_chan() }
 
     #[cfg(feature = "variablelist")]
     pub open spec fn same_deps(&self, o: Bdd) -> bool { self.var_deps == o.var_deps }
